@@ -28,7 +28,7 @@ EXPLANATION = (
 NOT_DECIDED = ["that unit k holds the text of page k", "heading-section units of docx/doc/odt (text partition is value level)", "mbox message boundaries (regex semantics)",
                "legacy PPT slide lists: text-less slides are dropped when any slide has text (open known finding)"]
 TRUSTED = ["pypdf reader.pages, openpyxl sheetnames, xlrd sheets(), ElementTree findall enumerate the source units in order", "CFG path enumeration"]
-FLOORS = {"C03-FILT": 2, "C03-JOIN": 11, "C03-NUM": 25, "C03-FILL": 8, "C03-SEP": 36, "C03-COVER": 6, "C03-KIND": 1, "C03-PART": 5, "C03-REF": 3}
+FLOORS = {"C03-FILT": 2, "C03-JOIN": 11, "C03-NUM": 25, "C03-FILL": 8, "C03-SEP": 36, "C03-COVER": 6, "C03-KIND": 1, "C03-PART": 5, "C03-REF": 3, "C03-SPINE": 2}
 
 JOIN_CLASSES = ["PdfContent", "PptxContent", "OdpContent", "XlsxContent", "OdsContent", "EpubContent", "HtmlContent", "PlainTextContent", "EmailContent", "OdgContent", "OdfContent"]
 # content class -> (collection, how the number is obtained in iterate_units: 'enumerate' | '<field on element>')
@@ -680,4 +680,17 @@ def rule_ref(ctx: Ctx) -> RuleReport:
     return rep
 
 
-RULES = [rule_join, rule_num, rule_fill, rule_filt, rule_cover, rule_sep, rule_kind, rule_part, rule_ref]
+def rule_spine(ctx: Ctx) -> RuleReport:
+    """One unit per spine chapter, numbered by its position in the spine: an itemref that is filtered out has no unit and the chapters
+    behind it are numbered lower (= C13-SPINE)."""
+    from sa.rules.c13 import rule_spine as r13
+
+    rep = r13(ctx)
+    rep.rule = "C03-SPINE"
+    rep.description = "every spine itemref with an idref becomes a chapter (no filtering on attributes such as linear='no'): unit k is the k-th spine item"
+    for f in rep.findings:
+        f.rule = "C03-SPINE"
+    return rep
+
+
+RULES = [rule_join, rule_num, rule_fill, rule_filt, rule_cover, rule_sep, rule_kind, rule_part, rule_ref, rule_spine]
